@@ -51,3 +51,16 @@ Qed.
 Theorem illegal_lister_spins : forall fuel dir reqs acc,
   snd (client_list fuel dir (fun _ _ => (0, false)) 3 0 acc reqs) = false.
 Proof. induction fuel as [|f IH]; intros; [reflexivity|]. cbn [client_list filelist_step andb]. cbn [firstn filter app]. rewrite app_nil_r. apply IH. Qed.
+
+Theorem paged_legal : forall L B P style, 1 <= B -> 1 <= P -> legal L B (paged L P style).
+Proof.
+  intros L B P style HB HP off. unfold paged. split.
+  - intros Hlt. replace (L <=? off) with false by (symmetry; apply Nat.leb_gt; exact Hlt). cbn [fst snd].
+    split; [lia|]. intros H. apply andb_true_iff in H. destruct H as [_ H]. apply Nat.eqb_eq in H. exact H.
+  - intros Hge. replace (L <=? off) with true by (symmetry; apply Nat.leb_le; exact Hge). reflexivity.
+Qed.
+
+(* so a paginated lister is listed exactly, whatever its page size *)
+Corollary paged_listing_exact : forall dir B P style, 1 <= B -> 1 <= P ->
+  exists r, client_list (length dir + 2) dir (paged (length dir) P style) B 0 [] 0 = (filter not_dot dir, r, true) /\ r <= length dir + 1.
+Proof. intros dir B P style HB HP. apply listing_from_start; [exact HB | apply paged_legal; assumption]. Qed.
